@@ -37,7 +37,7 @@ func genManifest(path string) {
 		Reason     string `json:"reason"`
 	}
 	var checks []chk
-	var nas []na
+	nas := []na{}
 	var ids []string
 	for id := range registry {
 		ids = append(ids, id)
